@@ -120,7 +120,9 @@ PROPS["C10"] = {
     "bounds": "every history of k = 2 and 3 (thorough 4) operations, each chosen symbolically from 12 operation kinds {clone, clone_from, repeated into_opaque, "
               "take, drop, transpose both ways, swap, CArcSome clone, into_arc + from Option<Arc>, into_opaque, opaque clone, "
               "opaque drop}, on a pool of 2 typed handle slots + 1 opaque slot sharing one allocation, observed through a "
-              "retained std Arc's strong_count and the payload's drop counter; symbolic payload value; both drop orders",
+              "retained std Arc's strong_count and the payload's drop counter; symbolic payload value; both drop orders; the k = 2 pool and "
+              "the last-handle / foreign-function harnesses a second time compiled with -C debug-assertions=off (what the release "
+              "profile executes of debug_assert! / cfg(debug_assertions) code)",
     "outside": "threads / concurrent schedules (Kani models a sequential machine; the Send/Sync impls are C09's subject); "
                "histories longer than 4; more than 3 simultaneously live handles",
     "assumptions": KANI_ASSUME + ["std::sync::Arc's atomics are modelled sequentially"],
